@@ -46,7 +46,21 @@ CheckPOS(e) ==
        ELSE IF \E dx \in {-1,0,1}, dy \in {-1,0,1} : Loc(hp,P(dx,dy)) # "E" THEN "ok"
        ELSE "pos-not-on-highest-dimension-member"
 
+\* A valid triangle k ulps wide (fam_sliver.go), alone, in a MultiPolygon or in a collection with a point and a
+\* line: the point on surface in units (ulp of a, h / hu) relative to the corner (a, y0). No float lies strictly
+\* inside, so what remains of the clause is: not empty, finite, and a point of the closed triangle.
+CheckSliver(e) ==
+  IF e.panic # "" THEN "panic"
+  ELSE IF e.isempty THEN "isempty"
+  ELSE IF e.dim # 2 THEN "dimension"
+  ELSE IF e.empty THEN "pos-empty"
+  ELSE IF ~e.fin THEN "pos-not-finite"
+  ELSE IF ~e.exact THEN "inc:pos-not-representable-in-units"
+  ELSE IF e.xu >= 0 /\ e.xu <= e.k /\ e.yu >= 0 /\ e.yu <= e.hu /\ e.xu * e.hu + e.yu * e.k <= e.k * e.hu THEN "ok"
+  ELSE "pos-not-on-highest-dimension-member"
+
 Check(e) ==
+  IF "kind" \in DOMAIN e THEN CheckSliver(e) ELSE
   IF e.panic # "" THEN "panic"
   ELSE IF ~PartsValid(e.g) THEN "skip:invalid"
   ELSE IF e.isempty # (Len(e.g) = 0) THEN "isempty"
